@@ -49,12 +49,25 @@ def gen_ts(rng, n_types):
         for _ in range(rng.randint(0, 4)):
             fname = rng.choice(["f", "g", "self", "type", "value", "k1", "k2", "ref"])
             r = rng.choice(tsgen.RANGES_PRIM + tsgen.RANGES_COLL + user + ["uima.tcas.Annotation", "uima.cas.TOP"])
-            el = rng.choice([None, "uima.tcas.Annotation"] + user[:2]) if r in ("uima.cas.FSArray", "uima.cas.FSList") else None
+            el = rng.choice([None, "uima.tcas.Annotation", "uima.cas.TOP"] + user[:2]) if r in ("uima.cas.FSArray", "uima.cas.FSList") else None
             multi = rng.choice([None, None, True, False])
             d = rng.choice(DESCRS)
             if sh.create_feature(n, fname, r, el, d, multi) == "ok":
                 sb.create_feature(ts, n, fname, r, elem=el, descr=d, multi=multi)
     return sb, ts, user
+
+
+REDECL_SETS = [["uima.tcas.Annotation"], ["uima.tcas.Annotation", "uima.cas.AnnotationBase"], ["uima.cas.FSArray", "uima.cas.ArrayBase"],
+               ["uima.cas.NonEmptyFSList", "uima.cas.FSList"], ["uima.cas.Sofa"], ["uima.cas.AnnotationBase"],
+               ["uima.cas.StringArray", "uima.cas.ArrayBase"]]
+BUILTIN_NAMES = {n for s_ in REDECL_SETS for n in s_} | {"uima.cas.NonEmptyStringList"}
+
+
+def builtin_entry(dump, name):
+    """descriptor entry that redeclares the built-in `name` exactly as the library defines it (read off the dump)"""
+    t = dump[name]
+    return {"name": name, "descr": None, "super": t["super"] or "",
+            "feats": [{"name": f["name"], "descr": f.get("descr"), "range": f["range"], "multi": f.get("multi"), "elem": f.get("elem")} for f in t["own"]]}
 
 
 def norm_ts_dump(d):
@@ -96,10 +109,9 @@ def run(ctx, out, budget):
             d = list(desc)
             order = rng.sample(range(len(d)), len(d))
             d = [d[i] for i in order]
-            if rng.random() < 0.3:   # redundantly redeclare a built-in identically
-                d.insert(rng.randint(0, len(d)), {"name": "uima.tcas.Annotation", "descr": None, "super": "uima.cas.AnnotationBase",
-                                                  "feats": [{"name": "begin", "descr": None, "range": "uima.cas.Integer", "multi": None, "elem": None},
-                                                            {"name": "end", "descr": None, "range": "uima.cas.Integer", "multi": None, "elem": None}]})
+            if rng.random() < 0.4:   # redundantly redeclare built-ins identically (also a built-in together with its supertype)
+                for bn in rng.choice(REDECL_SETS):
+                    d.insert(rng.randint(0, len(d)), builtin_entry(io[-1]["ok"], bn))
             lay = {"pad": rng.random() < 0.4, "pretty": rng.random() < 0.5, "empty_descr": rng.choice(["self-closing", "open-close", "omit"])}
             ops2.append({"op": "ts.load_xml", "desc": d, "layout": lay})
             ops2.append({"op": "ts.query", "ts": nts, "kind": "dump"})
@@ -107,9 +119,19 @@ def run(ctx, out, budget):
             ops2.append({"op": "ts.query", "ts": nts, "kind": "identity"})
             meta.append(len(ops2) - 4)
             nts += 1
-        # a built-in redeclared differently must be rejected
-        bad = list(desc) + [{"name": "uima.tcas.Annotation", "descr": None, "super": "uima.cas.TOP", "feats": []}]
-        ops2.append({"op": "ts.load_xml", "desc": bad})
+        # a built-in redeclared differently must be rejected: other supertype, a feature missing, an extra feature, a retyped feature
+        bads = [list(desc) + [{"name": "uima.tcas.Annotation", "descr": None, "super": "uima.cas.TOP", "feats": []}]]
+        bn = rng.choice(["uima.tcas.Annotation", "uima.cas.NonEmptyFSList", "uima.cas.Sofa", "uima.cas.AnnotationBase", "uima.cas.NonEmptyStringList"])
+        e = builtin_entry(io[-1]["ok"], bn)
+        fewer = dict(e, feats=e["feats"][:-1])
+        more = dict(e, feats=e["feats"] + [{"name": "extra", "descr": None, "range": "uima.cas.Integer", "multi": None, "elem": None}])
+        retyped = dict(e, feats=[dict(e["feats"][0], range="uima.cas.Boolean" if e["feats"][0]["range"] != "uima.cas.Boolean" else "uima.cas.Integer")] + e["feats"][1:])
+        for b in (fewer, more, retyped):
+            dd = list(desc)
+            dd.insert(rng.randint(0, len(dd)), b)
+            bads.append(dd)
+        for b in bads:
+            ops2.append({"op": "ts.load_xml", "desc": b})
         stage_b.append(ops2); metas.append(meta)
     idx = [i for i, o in enumerate(stage_b) if o is not None]
     ib = dict(zip(idx, sessions.run_impl_sessions([stage_b[i] for i in idx])))
@@ -135,7 +157,8 @@ def run(ctx, out, budget):
                                             "expected": orig, "actual": norm_ts_dump(dr["ok"])})
                 break
             loaded_desc = ops2[li]["desc"]
-            redecl = [t for t in loaded_desc if t["name"] == "uima.tcas.Annotation"][:1]
+            rn = sorted({t["name"] for t in loaded_desc if t["name"] in BUILTIN_NAMES})
+            redecl = [next(t for t in loaded_desc if t["name"] == n_) for n_ in rn]
             trimmed = [{**t, "descr": (t["descr"].strip() or None) if t["descr"] else None,
                         "feats": [{**f, "descr": (f["descr"].strip() or None) if f["descr"] else None} for f in t["feats"]]}
                        for t in redecl + first_xml]
@@ -148,9 +171,11 @@ def run(ctx, out, budget):
                 break
             if len(user) >= 3:
                 out.nontriv((k, li))
-        if io2[-1].get("err") != "ValueError":
-            out.oracle_failures.append({"scenario": sc, "op_index": len(ops2) - 1, "what": "a built-in type redeclared with a different supertype was not rejected",
-                                        "actual": io2[-1]})
+        for bi, what in zip(range(len(ops2) - 4, len(ops2)), ("a different supertype", "a feature missing", "an extra feature", "a retyped feature")):
+            if io2[bi].get("err") != "ValueError":
+                out.oracle_failures.append({"scenario": sc, "op_index": bi, "what": "a built-in type redeclared with %s was not rejected" % what,
+                                            "actual": io2[bi]})
+                break
         if mb is not None and mb[k] is not None:
             def canon_op(i, x, ops2=ops2):
                 if i < len(ops2) and ops2[i]["op"] == "ts.query" and ops2[i].get("kind") == "dump" and isinstance(x, dict) and "ok" in x:
@@ -187,4 +212,4 @@ def replay(ctx, payload):
     if any("ok" not in d for d in dumps):
         return True
     cs = {common.canon(norm_ts_dump(d["ok"])) for d in dumps}
-    return len(cs) > 1 or io[-1].get("err") != "ValueError"
+    return len(cs) > 1 or any(io[i].get("err") != "ValueError" for i in range(len(ops) - 4, len(ops)))
